@@ -1258,6 +1258,7 @@ func TestDriverDestroy(t *testing.T) {
 			"a sequence of raw cStateDb calls, real evm.Call/Create/Create2 runs on assembled bytecode, calls of the ERC-20 / staking precompiles and bank writes of another module on the StateDB's current context (mode A), "+
 			"or one real transaction executed by TransitionDb on a branch and again in a real block (mode B: one case in eight); "+
 			"the raw x/evm store is scanned before the transaction, before the commit and after it; "+
+			"big-wipe cases: destroyed contracts holding 1/64/65/127/128/129/255/256/257/300/512/513/1000 storage slots written through the keeper; "+
 			"block times 1995..2100, the wall clock is never read; non-trivial = an account was deleted at commit, or the transaction failed as a whole, or an operation named a protected account, or another module wrote; distinct by the full case term")
 	cases := NewCases(dir, "From Coq Require Import List ZArith Bool.\nFrom Evm Require Import Destroy DestroyX CorrBase CorrDestroy.", "destroy_mismatches")
 	c := NewChain(t, time.Time{})
